@@ -44,6 +44,7 @@ type InlineStats struct {
 	Disabled string         // non-empty: inlining was abandoned, with the reason
 	Threaded int            // return sites of inlined helpers specialised for the caller's test (inline_thread.go)
 	Lowered  int            // short-circuit operators lowered to if statements to reach a helper call
+	Unrolled int            // loops over constant tables written out row by row (inline_unroll.go)
 }
 
 func (s *InlineStats) String() string {
@@ -60,15 +61,18 @@ func (s *InlineStats) String() string {
 		names = append(names, fmt.Sprintf("%s x%d", k, v))
 	}
 	sort.Strings(names)
+	if n == 0 && s.Unrolled == 0 {
+		return "helper inlining: no function outside the baseline list is called (nothing to inline); no loop over a constant table"
+	}
 	if n == 0 {
-		return "helper inlining: no function outside the baseline list is called (nothing to inline)"
+		return fmt.Sprintf("helper inlining: no function outside the baseline list is called; %d loop(s) over a constant table written out row by row", s.Unrolled)
 	}
 	left := 0
 	for _, v := range s.Left {
 		left += v
 	}
-	return fmt.Sprintf("helper inlining: %d call site(s) of %d non-baseline function(s) inlined in %d round(s) [%s]; %d reference(s) left as calls; %d helper declaration(s) removed; %d return site(s) threaded into the caller's test; %d short-circuit operator(s) lowered",
-		n, len(s.Inlined), s.Rounds, strings.Join(names, ", "), left, len(s.Removed), s.Threaded, s.Lowered)
+	return fmt.Sprintf("helper inlining: %d call site(s) of %d non-baseline function(s) inlined in %d round(s) [%s]; %d reference(s) left as calls; %d helper declaration(s) removed; %d return site(s) threaded into the caller's test; %d short-circuit operator(s) lowered; %d loop(s) over a constant table unrolled",
+		n, len(s.Inlined), s.Rounds, strings.Join(names, ", "), left, len(s.Removed), s.Threaded, s.Lowered, s.Unrolled)
 }
 
 func declKey(d *ast.FuncDecl) string {
@@ -111,6 +115,8 @@ type inliner struct {
 	skip     map[*ast.CallExpr]bool
 	skipLower map[*ast.BinaryExpr]bool
 	keepSwitch *ast.SwitchStmt
+	keepRange  *ast.RangeStmt
+	tabs       map[types.Object]*tableInfo
 	exps     []*expansion // helpers inlined into the statement being processed
 	stats    *InlineStats
 	seq      *int
@@ -281,6 +287,9 @@ func (in *inliner) processStmt(s ast.Stmt) ([]ast.Stmt, ast.Stmt) {
 		if sw, ok := x.Stmt.(*ast.SwitchStmt); ok {
 			in.keepSwitch = sw // a labelled switch may be the target of `break L`: never converted
 		}
+		if rs, ok := x.Stmt.(*ast.RangeStmt); ok {
+			in.keepRange = rs // a labelled loop may be the target of break/continue L: never unrolled
+		}
 		pre, inner := in.processStmt(x.Stmt)
 		if inner == nil {
 			inner = &ast.EmptyStmt{Semicolon: x.Colon, Implicit: true}
@@ -299,6 +308,12 @@ func (in *inliner) processStmt(s ast.Stmt) ([]ast.Stmt, ast.Stmt) {
 			if len(pre) > 0 {
 				x.Else = &ast.BlockStmt{Lbrace: ei.Pos(), List: append(pre, e2), Rbrace: ei.End()}
 			}
+		}
+	}
+	if rs, ok := s.(*ast.RangeStmt); ok && rs != in.keepRange {
+		if u := in.unrollRange(rs); u != nil {
+			in.done++
+			return nil, u
 		}
 	}
 	if sw, ok := s.(*ast.SwitchStmt); ok && sw != in.keepSwitch {
@@ -974,6 +989,7 @@ type copier struct {
 	label      string
 	switchMode bool
 	depth      int
+	subst      func(ast.Expr) ast.Expr // optional: replacement for an expression (already a fresh copy), or nil
 	hostCopy   bool         // plain copy of caller statements: returns are left alone
 	cf         *calleeFacts // facts used to classify returned values (inline_thread.go)
 	sites      []*retSite
@@ -1066,6 +1082,15 @@ func (c *copier) value(v reflect.Value) reflect.Value {
 		}
 		el := v.Elem()
 		var nv reflect.Value
+		if c.subst != nil {
+			if e, isExpr := el.Interface().(ast.Expr); isExpr {
+				if r := c.subst(e); r != nil {
+					out := reflect.New(v.Type()).Elem()
+					out.Set(reflect.ValueOf(r))
+					return out
+				}
+			}
+		}
 		if el.Type() == returnPtrType && c.depth == 0 && !c.hostCopy {
 			nv = reflect.ValueOf(c.ret(el.Interface().(*ast.ReturnStmt)))
 		} else {
@@ -1205,9 +1230,6 @@ func inlineHelpers(pkgs []*packages.Package, main *packages.Package) (*InlineSta
 	seq := 0
 	for round := 1; round <= maxInlineRounds; round++ {
 		in := newInliner(main, st, &seq)
-		if len(in.cands) == 0 {
-			break
-		}
 		if in.run() == 0 {
 			break
 		}
